@@ -54,6 +54,16 @@ def gen_cases(tier, seed):
             for B in su:
                 for la, lb in (("stride2", "contig"), ("contig", "stride2"), ("reversed", "stride2"), ("stride2", "reversed")):
                     cases.append({"kind": "kernel", "op": op, "A": A, "B": B, "layoutA": la, "layoutB": lb})
+    # operands that are two views of the same buffer: equal start with different strides, equal length, nested, shifted,
+    # the very same view twice
+    for buf in ([0, 1, 2, 3, 4, 5, 6, 7, 8, 9], [5, 7, 2 ** 31, M32 - 3, M32 - 1, M32], list(range(10, 43, 3))):
+        n = len(buf)
+        specs = [(0, n, 1), (0, n // 2, 1), (0, n, 2), (0, n, 3), (1, n, 1), (1, n, 2), (2, n - 1, 1), (n // 2, n, 1), (0, 1, 1), (0, 0, 1)]
+        for sa in specs:
+            for sb in specs:
+                for op in ("inter", "union", "diff"):
+                    cases.append({"kind": "kernel", "op": op, "A": buf[slice(*sa)], "B": buf[slice(*sb)],
+                                  "views": {"buf": buf, "a": list(sa), "b": list(sb)}})
     # wrappers: every None / empty / non-empty combination, plus all pairs over a 4-point universe
     wu = [0, 5, 2 ** 31, M32]
     wsubs = [None] + subsets(wu)
@@ -222,7 +232,12 @@ def execute(cases, mod, asan_log=None, guard=None, progress=None):
             with open(progress, "w") as pf:
                 pf.write(str(tid))
         try:
-            if c["kind"] == "kernel":
+            if c["kind"] == "kernel" and "views" in c:
+                # both operands are views of ONE buffer (a caller's table): same start or overlapping, different strides
+                ins = list(c["A"]) + list(c["B"])
+                buf = arr(c["views"]["buf"])
+                ret = kern[c["op"]](buf[slice(*c["views"]["a"])], buf[slice(*c["views"]["b"])])
+            elif c["kind"] == "kernel":
                 ins = list(c["A"]) + list(c["B"])
                 ret = kern[c["op"]](arr(c["A"], c.get("layoutA", "contig")), arr(c["B"], c.get("layoutB", "contig")))
             elif c["kind"] == "wrapper":
